@@ -209,6 +209,24 @@ func hostileBytes(c *fw.Ctx, scale int, emit emitFn) {
 	}
 }
 
+// cycleInContextProjects: include cycles whose second copy runs into something else before it gets to its INCLUDE again - the copy
+// stands inside the explicit context the first one has left open (D79). Used by C14 (a recursion error on an INCLUDE line), and by
+// the hostile workload, i.e. C01 and the location / trace oracles of C07.
+func cycleInContextProjects() []map[string]string {
+	return []map[string]string{
+		{"root.jst": "JSIGHT 0.3\nINCLUDE a.jst\n", "a.jst": "URL /a\n(\n  GET\n  INCLUDE a.jst\n)\n"},
+		{"root.jst": "JSIGHT 0.3\nINCLUDE a.jst\n", "a.jst": "INFO\n(\n  Title \"t\"\n  Version 1\n  INCLUDE a.jst\n)\n"},
+		{"root.jst": "JSIGHT 0.3\nINCLUDE a.jst\n", "a.jst": "GET /a\n(\n  200 any\n  Description\n    x\n  INCLUDE a.jst\n)\n"},
+		{"root.jst": "JSIGHT 0.3\nINCLUDE a.jst\n", "a.jst": "URL /a\n(\n  GET\n  INCLUDE b.jst\n)\n", "b.jst": "  200 any\n  INCLUDE a.jst\n"},
+		{"root.jst": "JSIGHT 0.3\nURL /r\n(\n  INCLUDE a.jst\n)\n", "a.jst": "GET\n  200 any\nTAG @t\nINCLUDE a.jst\n"},
+		{"root.jst": "JSIGHT 0.3\nINCLUDE a.jst\n", "a.jst": "SERVER @s\n(\n  BaseUrl \"http://x\"\n  INCLUDE sub/b.jst\n)\n", "sub/b.jst": "# b\nINCLUDE c.jst\n", "sub/c.jst": "INCLUDE b.jst\n"},
+		{"root.jst": "JSIGHT 0.3\nINCLUDE a.jst\n", "a.jst": "MACRO @m\n(\n  200 any\n  INCLUDE a.jst\n)\n"},
+		{"root.jst": "JSIGHT 0.3\nINCLUDE a.jst\n", "a.jst": "TYPE @t\n  {}\nURL /a\n(\n  GET\n  (\n    INCLUDE a.jst\n  )\n)\n"},
+		{"root.jst": "JSIGHT 0.3\nINCLUDE b.jst\n", "b.jst": "URL /b\n(\n  GET\n  INCLUDE c.jst\n)\n", "c.jst": "    200 any\n    Description\n      " + strings.Repeat("long text ", 40) + "\n    INCLUDE b.jst\n"},
+		{"root.jst": "JSIGHT 0.3\nTYPE @t any\nINCLUDE p/a.jst\n", "p/a.jst": "GET /a\n(\n  INCLUDE q/b.jst\n)\n", "p/q/b.jst": "200 any\nINCLUDE c.jst\n", "p/q/c.jst": "# c\n\nINCLUDE b.jst\n"},
+	}
+}
+
 // all 1- and 2-byte files
 func tinyFiles(emit emitFn) {
 	n := 0
@@ -399,6 +417,13 @@ func includeGraphs(c *fw.Ctx, sampled int, emit emitFn) {
 			"../x.jst":  []byte("TYPE @x any\n"),
 		}
 		emit("include-target", &proto.Job{ID: fmt.Sprintf("it-%d", i), Root: "root.jst", Files: files, Dirs: []string{"d"}})
+	}
+	for i, fs := range cycleInContextProjects() {
+		files := map[string][]byte{}
+		for k, v := range fs {
+			files[k] = []byte(v)
+		}
+		emit("include-cycle-in-context", &proto.Job{ID: fmt.Sprintf("icc-%d", i), Root: "root.jst", Files: files})
 	}
 	// root specials
 	emit("root-special", &proto.Job{ID: "root-missing", Root: "nope.jst", Files: map[string][]byte{"other.jst": []byte("x")}})
